@@ -18,6 +18,7 @@ def scalarOfStr : String → Except String Scalar
 
 def collOfStr : String → Except String Coll
   | "list" => pure .list | "set" => pure .set | "frozenset" => pure .frozenset | "deque" => pure .deque
+  | "tuple" => pure .tuple
   | s => throw s!"coll {s}"
 
 partial def spOfJson (j : Json) : Except String Sp := do
